@@ -380,11 +380,72 @@ let cmd_aw (args : string list) : string =
   | ["dump"; r] -> let (_, st) = Hashtbl.find aws r in "ok " ^ print_aw_state st
   | _ -> "err badcmd"
 
+(* ---------- C11: change events ---------- *)
+(* flags: three chars 0/1 = deleted, added (by this transaction), deleted by this transaction *)
+let fl s i = s.[i] = '1'
+let toks (s : string) : n list = if s = "" || s = "_" then [] else List.map n_of_hex (String.split_on_char '.' s)
+let ptoks (l : n list) : string = match l with [] -> "_" | _ -> String.concat "." (List.map hex_of_n l)
+let parse_sitems (s : string) : sitem list =
+  if s = "_" then [] else List.map (fun t -> match String.split_on_char ',' t with
+      | [len; f; vs] -> { s_len = n_of_hex len; s_vals = toks vs; s_deleted = fl f 0; s_added = fl f 1; s_deld = fl f 2 }
+      | _ -> failwith "bad sitem") (split_on ';' s)
+let print_change = function
+  | Added vs -> "+" ^ ptoks vs
+  | Removed k -> "-" ^ hex_of_n k
+  | Retain k -> "=" ^ hex_of_n k
+let popt f = function Some x -> f x | None -> "none"
+let parse_kitems (s : string) : kitem list =
+  if s = "_" then [] else List.map (fun t -> match String.split_on_char ',' t with
+      | [v; f] -> { k_val = n_of_hex v; k_deleted = fl f 0; k_added = fl f 1; k_deld = fl f 2 }
+      | _ -> failwith "bad kitem") (split_on ';' s)
+let print_entry = function
+  | None -> "-"
+  | Some (EInserted v) -> "I" ^ hex_of_n v
+  | Some (EUpdated (o, v)) -> "U" ^ hex_of_n o ^ ">" ^ hex_of_n v
+  | Some (ERemoved o) -> "R" ^ hex_of_n o
+let parse_titems (s : string) : titem list =
+  if s = "_" then [] else List.map (fun t -> match String.split_on_char ',' t with
+      | [c; f] ->
+        let body = String.sub c 1 (String.length c - 1) in
+        let content = (match c.[0] with
+            | 'S' -> TStr (toks body)
+            | 'E' -> TEmbed (n_of_hex body)
+            | 'F' -> (match String.split_on_char ':' body with [k; v] -> TFormat (n_of_hex k, n_of_hex v) | _ -> failwith "bad format")
+            | _ -> TOther) in
+        { t_content = content; t_deleted = fl f 0; t_added = fl f 1; t_deld = fl f 2 }
+      | _ -> failwith "bad titem") (split_on ';' s)
+let print_amap (m : (n * n) list) : string =
+  let l = List.sort compare (List.map (fun (k, v) -> (int_of_n k, int_of_n v)) m) in
+  String.concat "&" (List.map (fun (k, v) -> Printf.sprintf "%x:%x" k v) l)
+let print_delta = function
+  | DInsStr (s, a) -> "+S" ^ ptoks s ^ "@" ^ print_amap a
+  | DInsEmbed (v, a) -> "+E" ^ hex_of_n v ^ "@" ^ print_amap a
+  | DDelete k -> "-" ^ hex_of_n k
+  | DRetain (k, a) -> "=" ^ hex_of_n k ^ "@" ^ print_amap a
+let cmd_ev (args : string list) : string =
+  match args with
+  | ["seq"; items] ->
+    let it = parse_sitems items in
+    Printf.sprintf "ok %s | exact=%s wf=%s | before=%s | after=%s"
+      (String.concat "," (List.map print_change (change_set it)))
+      (pb (seq_exact it)) (pb (List.for_all swf it)) (ptoks (seq_before it)) (ptoks (seq_after it))
+  | ["keys"; chain] ->
+    let ch = parse_kitems chain in
+    Printf.sprintf "ok %s | exact=%s wf=%s | before=%s | after=%s"
+      (print_entry (keys_change ch)) (pb (key_exact ch)) (pb (kwf ch)) (popt hex_of_n (key_before ch)) (popt hex_of_n (key_after ch))
+  | ["text"; items] ->
+    let it = parse_titems items in
+    Printf.sprintf "ok %s | exact=%s wf=%s" (String.concat "," (List.map print_delta (text_delta it))) (pb (text_exact it)) (pb (List.for_all twf it))
+  | ["path"; items; k] ->
+    "ok " ^ hex_of_n (path_index (parse_sitems items) (nat_of_int (int_of_string k)))
+  | _ -> "err badcmd"
+
 let dispatch (line : string) : string =
   match String.split_on_char ' ' (String.trim line) with
   | "R" :: args -> cmd_ranges args
   | "D" :: args -> cmd_doc args
   | "A" :: args -> cmd_aw args
+  | "EV" :: args -> cmd_ev args
   | "DEC" :: args -> cmd_dec args
   | "ENC" :: args -> cmd_enc args
   | ["PING"] -> "ok pong"
